@@ -3,10 +3,12 @@
    position of a failing call, a signal, a file swap and process death, in every mode.       *)
 EXTENDS XzFilePair
 
-CONSTANTS AllFlagCombos   \* FALSE: default, -k, -f, -c, --no-sync, --files;  TRUE: every combination
+CONSTANTS MaxFiles,        \* 1 or 2 files on the command line
+          AllFlagCombos   \* FALSE: default, -k, -f, -c, --no-sync, --files;  TRUE: every combination
 
 OneFlag(c) == Cardinality({x \in {"keep", "force", "stdout", "nosync", "files"} : c[x]}) <= 1
 Wanted(c) == /\ AllFlagCombos \/ OneFlag(c)
+             /\ c.nf <= MaxFiles
              /\ c.nf = 2 => ~c.pre[2]                      \* symmetric to pre[1]
              \* quick tier: two files only without flags or with --files, bad input as first of the two
              /\ (c.nf = 2 /\ ~AllFlagCombos) => (c.input[2] = "good" /\ ~c.keep /\ ~c.force /\ ~c.stdout /\ ~c.nosync)
@@ -29,16 +31,18 @@ TypeOK ==
   /\ exitStatus \in 0..2 /\ abortW \in 0..2 /\ nfault \in 0..MaxFaults /\ nsig \in 0..MaxSigs
   /\ exitSignal \in Sigs \cup {"none"} /\ sigPending \in Sigs \cup {"none"}
 
-(* ---- the contract (property C17) ---- *)
+(* ---- the contract (property C17), stated on the options, not on the model's helper operators ---- *)
+CKeep == cfg.keep \/ cfg.stdout      \* the source must stay
+CSync == ~cfg.nosync                 \* the target must reach the disk before the source goes
 
 \* The source is gone only if the complete target was written, synced (unless disabled) and closed
 \* without error.  Holds in EVERY reachable state, hence also at the instant of a SIGKILL.
 DataSafe ==
   \A i \in Files : src[i] = "absent" =>
-     /\ ~KeepSrc
+     /\ ~CKeep
      /\ dst[i] = "complete" \/ envTouched[i]
      /\ dstClosedOk[i]
-     /\ Sync => (dstSynced[i] /\ dirSynced[i])
+     /\ CSync => (dstSynced[i] /\ dirSynced[i])
      /\ ~ioFailed[i]
      /\ cfg.input[i] = "good"
 
@@ -53,10 +57,10 @@ NoJunkLeft ==
 \* ... and the status tells: exit 0 means every file was converted completely.
 ExitZeroMeansDone ==
   (pc = "exited" /\ exitStatus = 0) =>
-     \A i \in Files : (dst[i] = "complete" \/ envTouched[i]) /\ (~KeepSrc => src[i] = "absent")
+     \A i \in Files : (dst[i] = "complete" \/ envTouched[i]) /\ (~CKeep => src[i] = "absent")
 FailureIsReported ==
   (Ended /\ \E i \in Files : (ioFailed[i] \/ cfg.input[i] # "good")) => (pc = "dead" \/ exitStatus = 1)
-KeepNeverRemoves == KeepSrc => \A i \in Files : src[i] # "absent"
+KeepNeverRemoves == CKeep => \A i \in Files : src[i] # "absent"
 \* xz never unlinks a file it did not open/create, and never touches an existing target without --force
 NoForeignLost == ~lostForeign
 NoOverwrite == \A i \in Files : (cfg.pre[i] /\ ~cfg.force /\ ~cfg.stdout) => dst[i] = "foreign"
